@@ -12,3 +12,5 @@ CONSTANTS
   CollOf <- CollOf3
   JoinLifts = TRUE
   StartAllFirst = FALSE
+  PChanOf <- PChanSame
+  InitRaises = TRUE
